@@ -355,3 +355,121 @@ Proof.
     destruct Hc as [Hc|[Hc|[Hc|Hc]]]; rewrite Hc in *; try reflexivity.
     rewrite (R2 eq_refl eq_refl). reflexivity.
 Qed.
+
+(* ---- Symlink: the implementation stores Clean(target); the specification world is given Clean(target) ----- *)
+Theorem step_symlink (s : fsys) (sv : sview) (w : list str) (cl : str) (t : str) :
+  step_hyps s sv -> path_ok s sv SlLstat (w ++ [cl]) -> no_setgid_parent s sv (w ++ [cl]) ->
+  let p := abs_path (w ++ [cl]) in
+  (fst (symlink s (sv_view sv) t p), proj_res Linux (snd (symlink s (sv_view sv) t p)))
+  = k_symlink s sv (clean Linux t) p.
+Proof.
+  intros H Hp Hsg p. pose proof (resolve s sv SlLstat (w ++ [cl]) H Hp) as R.
+  destruct Hp as (Hg & Hk1 & _ & Hnf). change (follow_of SlLstat) with false in R, Hk1. change (precise_of SlLstat) with true in R.
+  destruct (klookup_pm s sv false w cl Hg Hk1) as (Hkn & Hkg & Hpm).
+  unfold p, symlink, k_symlink. rewrite Hpm. unfold no_setgid_parent in Hsg.
+  pose proof (klookup_final s sv false (w ++ [cl]) Hg) as Hfin.
+  destruct (clean Linux t) as [|t0 t'] eqn:Et; [exfalso; exact (clean_nonempty t Et)|]. rewrite <- Et. clear Et t0 t'.
+  destruct (klookup s sv false false (abs_path (w ++ [cl]))) as [par kind name n|par name md| |e] eqn:HK; cbn [walk_rel] in R.
+  - destruct (Hkn _ _ _ _ eq_refl) as (-> & ->). destruct Hfin as (F1 & _). destruct R as (R1 & _).
+    rewrite R1, F1. reflexivity.
+  - pose proof (Hkg _ _ _ eq_refl) as ->. destruct Hfin as (F1 & F2 & _). destruct R as (R1 & R2 & R3 & R4).
+    destruct (at_name_views _ _ _ _ _ _ (R4 eq_refl)) as (V1 & V2 & _).
+    rewrite R1, V2, R3, V1, F1. cbn [is_not_exist negb orb].
+    rewrite (admin_perm_on s sv par _ H) by (apply node_is_dir_valid; exact F2).
+    rewrite (admin_kperm s sv par 3 H) by (apply node_is_dir_valid; exact F2). cbn [negb].
+    unfold create_symlink, alloc_child, new_owner_gid. rewrite (Hsg _ _ _ eq_refl), (sh_os _ _ H). reflexivity.
+  - destruct R.
+  - destruct R as (R1 & R2). destruct (werr_cases _ _ R1 Hnf) as (Hc & ->).
+    destruct Hc as [Hc|[Hc|[Hc|Hc]]]; rewrite Hc in *; try reflexivity.
+    rewrite (R2 eq_refl eq_refl). reflexivity.
+Qed.
+
+(* ---- Remove (os.Remove = unlink, then rmdir) ---------------------------------------------------------------- *)
+(* a symbolic link has one name (the implementation never hard-links one; Link on a link is a listed deviation) *)
+Definition sym_single (h : heap) : Prop :=
+  forall c t m d1 n1 d2 n2, get h c = Some (NSym t m) -> dedge h d1 n1 c -> dedge h d2 n2 c -> d1 = d2 /\ n1 = n2.
+
+Lemma in_aremove (V : Type) (k k' : str) (x : V) (m : list (str * V)) :
+  In (k', x) (aremove str_eqb k m) -> k' <> k /\ In (k', x) m.
+Proof.
+  induction m as [|[k2 v2] m IH]; cbn [aremove In]; [tauto|].
+  destruct (str_eqb_spec k k2) as [<-|Hne]; cbn [In].
+  - intros Hin. apply IH in Hin. tauto.
+  - intros [[= -> ->]|Hin]; [split; [congruence|left; reflexivity]|]. apply IH in Hin. tauto.
+Qed.
+
+Lemma get_remove_child (h : heap) (par : nat) (name : str) (c : nat) :
+  c <> par -> get (remove_child h par name) c = get h c.
+Proof.
+  intros Hne. unfold remove_child. destruct (get h par) as [[ch m| |]|]; try reflexivity.
+  apply wget_upd_other. congruence.
+Qed.
+
+Lemma dedge_remove_child (h : heap) (par : nat) (name : str) (d : nat) (n : str) (c : nat) :
+  dedge (remove_child h par name) d n c -> dedge h d n c /\ (d = par -> n <> name).
+Proof.
+  unfold dedge, children. destruct (Nat.eq_dec d par) as [->|Hne].
+  - unfold remove_child. destruct (get h par) as [[ch m| |]|] eqn:Hg; rewrite ?Hg; try tauto.
+    rewrite wget_upd_same by (exact (wget_lt _ _ _ Hg)). intros Hin. apply in_aremove in Hin. tauto.
+  - rewrite get_remove_child by exact Hne. tauto.
+Qed.
+
+Lemma release_single (h : heap) (par : nat) (name : str) (c : nat) :
+  sym_single h -> dedge h par name c -> c <> par ->
+  release (remove_child h par name) c = delete_node (remove_child h par name) c.
+Proof.
+  intros Hss He Hne. unfold release. rewrite get_remove_child by exact Hne.
+  destruct (get h c) as [[ch m|dt k i m|t m]|] eqn:Hg; try reflexivity.
+  destruct (find_parent (remove_child h par name) 0 c) as [p|] eqn:Hf; [|reflexivity]. exfalso.
+  apply find_parent_some in Hf as (_ & ch' & m' & n' & Hn' & Hin'). rewrite Nat.sub_0_r in Hn'.
+  assert (He' : dedge (remove_child h par name) p n' c) by (unfold dedge, children, get; rewrite Hn'; exact Hin').
+  apply dedge_remove_child in He' as (He1 & He2).
+  destruct (Hss c t m p n' par name Hg He1 He) as (-> & ->). apply He2; reflexivity.
+Qed.
+
+Lemma admin_may_delete (s : fsys) (sv : sview) (par n : nat) (isdir : bool) :
+  step_hyps s sv -> get (f_heap s) par <> None ->
+  may_delete (f_heap s) par n isdir (v_user (sv_view sv))
+  = if isdir then (if node_is_dir (f_heap s) n then None else Some ENOTDIR)
+    else (if node_is_dir (f_heap s) n then Some EISDIR else None).
+Proof.
+  intros H Hg. unfold may_delete, sticky_refuses. rewrite (admin_kperm s sv par 3 H Hg), (sh_admin _ _ H).
+  cbn [negb]. rewrite andb_false_r. reflexivity.
+Qed.
+
+Theorem step_remove (s : fsys) (sv : sview) (w : list str) (cl : str) :
+  step_hyps s sv -> path_ok s sv SlLstat (w ++ [cl]) -> sym_single (f_heap s) ->
+  let p := abs_path (w ++ [cl]) in
+  (fst (remove s (sv_view sv) p), proj_res Linux (snd (remove s (sv_view sv) p))) = go_remove s sv p.
+Proof.
+  intros H Hp Hss p. pose proof (resolve s sv SlLstat (w ++ [cl]) H Hp) as R.
+  destruct Hp as (Hg & Hk1 & _ & Hnf). change (follow_of SlLstat) with false in R, Hk1. change (precise_of SlLstat) with true in R.
+  destruct (klookup_pm s sv false w cl Hg Hk1) as (Hkn & Hkg & Hpm).
+  unfold p, remove, go_remove, k_unlink, k_rmdir. rewrite Hpm.
+  pose proof (klookup_final s sv false (w ++ [cl]) Hg) as Hfin.
+  destruct (klookup s sv false false (abs_path (w ++ [cl]))) as [par kind name n|par name md| |e] eqn:HK; cbn [walk_rel] in R.
+  - destruct (Hkn _ _ _ _ eq_refl) as (-> & ->). destruct Hfin as (F1 & F2 & _).
+    destruct R as (R1 & R2 & R3 & _ & R4). destruct (R4 eq_refl) as (R5 & R6).
+    destruct (at_name_views _ _ _ _ _ _ (R6 eq_refl)) as (V1 & _).
+    assert (Hvp : get (f_heap s) par <> None) by (apply node_is_dir_valid; exact F2).
+    assert (Hne : n <> par).
+    { intros ->. apply (ww_acyclic _ (sh_wf _ _ H) par). exists par, cl. split; [constructor|].
+      apply alookup_in. exact F1. }
+    rewrite R2, R5, R1, V1, F1. cbn [is_file_exists negb].
+    replace (Nat.eqb par n) with false by (symmetry; apply Nat.eqb_neq; congruence).
+    rewrite (admin_perm_on s sv par _ H Hvp). cbn [negb].
+    rewrite !(admin_may_delete s sv par n _ H Hvp).
+    destruct (get (f_heap s) n) as [[ch m|dt k i m|t m]|] eqn:Hgn; [| | |congruence].
+    + assert (Hnd : node_is_dir (f_heap s) n = true) by (unfold node_is_dir; rewrite Hgn; reflexivity).
+      rewrite Hnd. unfold dir_nonempty. rewrite Hgn. destruct ch; reflexivity.
+    + assert (Hnd : node_is_dir (f_heap s) n = false) by (unfold node_is_dir; rewrite Hgn; reflexivity).
+      rewrite Hnd. rewrite (release_single _ par cl n Hss (alookup_in _ _ _ _ F1) Hne). reflexivity.
+    + assert (Hnd : node_is_dir (f_heap s) n = false) by (unfold node_is_dir; rewrite Hgn; reflexivity).
+      rewrite Hnd. rewrite (release_single _ par cl n Hss (alookup_in _ _ _ _ F1) Hne). reflexivity.
+  - pose proof (Hkg _ _ _ eq_refl) as ->. destruct Hfin as (F1 & _). destruct R as (R1 & R2 & _).
+    rewrite R2, R1, F1. reflexivity.
+  - destruct R.
+  - destruct R as (R1 & _). destruct (werr_cases _ _ R1 Hnf) as (Hc & ->).
+    set (r := search_node s (sv_view sv) (abs_path (w ++ [cl])) SlLstat) in *.
+    destruct (sr_child r), (sr_parent r); destruct Hc as [Hc|[Hc|[Hc|Hc]]]; rewrite Hc; reflexivity.
+Qed.
